@@ -68,9 +68,9 @@ EDITS = [
     ("C12", "explicit-usd-rate-ignored", "src/portfolio/io/tx_loader.rs",
      "    if provided_rate.is_some() {\n        return Ok(None);\n    }\n    match curr {\n",
      "    if provided_rate.is_some() && curr.as_ref().map(|c| *c != Currency::usd()).unwrap_or(true) {\n        return Ok(None);\n    }\n    match curr {\n"),
-    ("C12", "commission-rate-from-tx-currency", "src/portfolio/io/tx_loader.rs",
-     "            &tx.commission_currency,\n            &tx.commission_curr_to_local_exchange_rate,\n",
-     "            &tx.commission_currency.clone().or(tx.tx_currency.clone()),\n            &tx.commission_curr_to_local_exchange_rate.or(tx.tx_curr_to_local_exchange_rate.filter(|_| tx.commission_currency.is_none())),\n"),
+    ("C12", "commission-lookup-by-settlement-date", "src/portfolio/io/tx_loader.rs",
+     "        let c_loaded_rate = load_rate_if_needed(\n            trade_date,\n",
+     "        let c_loaded_rate = load_rate_if_needed(\n            tx.settlement_date.as_ref().unwrap_or(trade_date),\n"),
     ("C12", "cad-rate-not-checked", "src/portfolio/model/currency.rs",
      "        if c == Currency::default() && *r != dec!(1.0) {\n", "        if c == Currency::default() && *r < dec!(1.0) {\n"),
     ("C12", "lookback-stops-at-year-start", "src/fx/io/rate_loader.rs",
